@@ -3,6 +3,7 @@ package conngater
 import (
 	"context"
 	"net"
+	"slices"
 	"sync"
 
 	"github.com/libp2p/go-libp2p/core/connmgr"
@@ -285,7 +286,8 @@ func (cg *BasicConnectionGater) ListBlockedSubnets() []*net.IPNet {
 
 	result := make([]*net.IPNet, 0, len(cg.blockedSubnets))
 	for _, ipnet := range cg.blockedSubnets {
-		result = append(result, ipnet)
+		// hand out copies: the stored values are what the Intercept* methods match against
+		result = append(result, &net.IPNet{IP: slices.Clone(ipnet.IP), Mask: slices.Clone(ipnet.Mask)})
 	}
 
 	return result
